@@ -1,0 +1,40 @@
+//go:build verif
+// +build verif
+
+package airtime
+
+// Contracts for /verif (tool: gov); comments only.
+// Semtech AN1200.13 (LoRa modem designer's guide), time on air:
+//   Tsym      = 2^SF / BW
+//   Tpreamble = (n_preamble + 4.25) * Tsym
+//   n_payload = 8 + max(ceil((8 PL - 4 SF + 28 + 16 CRC - 20 H) / (4 (SF - 2 DE))) * (CR + 4), 0),  CRC = 1
+//   ToA       = Tpreamble + n_payload * Tsym
+// Bandwidth is in kHz and durations are in ns, so Tsym = floor(2^SF * 10^6 / BW) ns.
+
+//@ spec b2i(b) = ite(b, int64(1), int64(0))
+// ceil(a / b) for b > 0 in integers (Go's / truncates toward zero)
+//@ spec ceildiv(a, b) = ite(a >= 0, (a + b - 1) / b, 0 - ((0 - a) / b))
+//@ spec max0(x) = ite(x > 0, x, int64(0))
+//@ spec nsym(pl, sf, cr, noheader, de) = 8 + max0(ceildiv(8 * pl - 4 * sf + 28 + 16 - 20 * b2i(noheader), 4 * (sf - 2 * b2i(de))) * (cr + 4))
+
+//@ func CalculateLoRaSymbolDuration
+//@   props C20
+//@   requires range: 5 <= sf && sf <= 12 && bandwidth >= 1 && bandwidth <= 2000
+//@   ensures formula: int64(result) == (int64(1) << sf) * 1000000 / int64(bandwidth)
+
+//@ func CalculateLoRaPreambleDuration
+//@   props C20
+//@   requires range: 0 <= preambleNumber && preambleNumber <= 65535 && symbolDuration >= 0 && int64(symbolDuration) <= 4096000000
+//@   ensures formula: int64(result) == (100 * int64(preambleNumber) + 425) * int64(symbolDuration) / 100
+
+//@ func CalculateLoRaPayloadSymbolNumber
+//@   props C20
+//@   requires range: 0 <= payloadSize && payloadSize <= 255 && 5 <= sf && sf <= 12
+//@   ensures crrange: (err == nil) == (codingRate >= 1 && codingRate <= 4)
+//@   ensures slow_formula: err == nil ==> int64(result0) == nsym(int64(payloadSize), int64(sf), int64(codingRate), !headerEnabled, lowDataRateOptimization)
+
+//@ func CalculateLoRaAirtime
+//@   props C20
+//@   requires range: 0 <= payloadSize && payloadSize <= 255 && 5 <= sf && sf <= 12 && bandwidth >= 1 && bandwidth <= 2000 && 0 <= preambleNumber && preambleNumber <= 65535
+//@   ensures crrange: (err == nil) == (codingRate >= 1 && codingRate <= 4)
+//@   ensures formula: err == nil ==> int64(result0) == (100 * int64(preambleNumber) + 425) * ((int64(1) << sf) * 1000000 / int64(bandwidth)) / 100 + nsym(int64(payloadSize), int64(sf), int64(codingRate), !headerEnabled, lowDataRateOptimization) * ((int64(1) << sf) * 1000000 / int64(bandwidth))
